@@ -88,8 +88,8 @@ def run():
         raise pvlib.Broken("PanSession property violated in the model: " + res.violation)
     ck.add_tlc(res, f"MC_C19 NProgs={n} MaxHist=2")
     sessions = [c["hist"] for c in payloads(res, "CASE ")]
-    if not thorough:       # every (history of one program, probe) pair, and a seeded sample of the 2-program histories
-        sessions = [s for s in sessions if len(s) == 2] + ck.rng.sample([s for s in sessions if len(s) == 3], 900)
+    # every (history of one program, probe) pair, and a seeded sample of the 2-program histories
+    sessions = [s for s in sessions if len(s) == 2] + ck.rng.sample([s for s in sessions if len(s) == 3], 40000 if thorough else 900)
     # FreshObs: each program alone in a newly started interpreter process
     fresh = {}
     freqs = [{"id": f"{emb}.{p}", "mode": "session", "embed": emb, "progs": [POOL[p]], "helpers": helpers([p]), "stdin": "l1\nl2\n"} for emb in EMBEDDINGS for p in range(n)]
@@ -150,10 +150,10 @@ def run():
     ck.cov["evaluations"] = sum(len(m[1]) for m in meta.values())
     ck.cov["distinct_nontrivial"] = nontrivial
     ck.cov["traces_validated_against_impl"] = len(rows)
-    ck.cov["exhaustive"] = thorough
+    ck.cov["exhaustive"] = False
     ck.cov["rule"] = (f"pool of {n} programs (define variables, read names other programs define, raise the shared `_`, fail with 6 error kinds incl. syntax errors, "
                       "shadow built-in names, evalEnv, exhaust built-in iterators, leave StopIterErr uncaught, pass keywords only through **, touch Either, read stdin, import a module ./helper of their own directory, use Str descendants as map keys and inspect the key objects of evalEnv / import results); "
-                      "sessions = all (history, probe) pairs and (quick: 900 seeded / thorough: all) two-program histories + probe, under playground, Str#evalEnv "
+                      "sessions = all (history, probe) pairs and (quick: 900 / thorough: 40000 seeded) two-program histories + probe, under playground, Str#evalEnv "
                       "and the real `pangaea test` driver; non-trivial = sessions of distinct programs")
     ck.assumptions = ["web/wasm/executor.go needs GOOS=js: its execute body (one constant scope, NewEnclosedEnv per run, IO re-injected) is reproduced in the worker",
                       "FreshObs is measured, per embedding, in a newly created interpreter; `pangaea test` histories contain passing files only (the driver stops at a failure)"]
